@@ -494,6 +494,10 @@ def _lin(e):
     if e[0] == "binop" and e[1] in ("Add", "AddWithOverflow") and strip_casts(e[3])[0] == "const":
         t, c = _lin(e[2])
         return t, c + strip_casts(e[3])[1]
+    if e[0] == "binop" and e[1] in ("Add", "AddWithOverflow") and strip_casts(e[2])[0] == "const" \
+            and isinstance(strip_casts(e[2])[1], int):
+        t, c = _lin(e[3])
+        return t, c + strip_casts(e[2])[1]
     if e[0] == "binop" and e[1] in ("Sub", "SubWithOverflow") and strip_casts(e[3])[0] == "const":
         t, c = _lin(e[2])
         return t, c - strip_casts(e[3])[1]
